@@ -97,8 +97,11 @@ Definition swap_nodes (i j : nat) (l : list A) : list A :=
 Variable mex : option exn.
 Definition merge_error : exn := match mex with Some e => e | None => MosMergeError end.
 Definition raise_merge {S} (s : S) : res S := fail s merge_error.
+(* a warning never raises (repair F29): its text names the message ID as None when evaluating it
+   would raise, so emit does not depend on mex any more; the parameter stays so that the
+   signatures of the generic edits are unchanged *)
 Definition emit {S} (w : warn) (s : S) : res S :=
-  match mex with Some e => fail s e | None => R s [w] None end.
+  let _ := mex in R s [w] None.
 
 (* for each ID: remove the first match, or warn *)
 Fixpoint delete_loop (w : warn) (ids : list (option K)) (l : list A) : res (list A) :=
